@@ -139,8 +139,11 @@ pub proof fn lemma_val_mul_forall(a: int, b: int)
 
 // reduced declarations of math/src/field/traits.rs (the methods under contract)
 pub trait FieldElement: Sized {
+    const ZERO: Self;
     spec fn wf_e(self) -> bool;
     fn double(self) -> (r: Self)
+        requires self.wf_e();
+    fn square(self) -> (r: Self)
         requires self.wf_e();
 }
 pub trait ExtensibleField<const N: usize>: Sized {
@@ -150,6 +153,19 @@ pub trait ExtensibleField<const N: usize>: Sized {
         requires Self::wf_x(a), Self::wf_x(b);
     fn mul_base(a: [Self; N], b: Self) -> (r: [Self; N])
         requires Self::wf_x(a), Self::wf_b(b);
+    // (postcondition through a spec fn: Verus cannot resolve an `ensures` written on the impl of an associated
+    // function named like a method of another trait implemented for the same type - FieldElement::square)
+    spec fn square_post(a: [Self; N], r: [Self; N]) -> bool;
+    fn square(a: [Self; N]) -> (r: [Self; N])
+        requires Self::wf_x(a),
+        ensures Self::square_post(a, r);
+    fn frobenius(x: [Self; N]) -> (r: [Self; N])
+        requires Self::wf_x(x);
+}
+impl vstd::std_specs::ops::NegSpecImpl for BaseElement {
+    open spec fn obeys_neg_spec() -> bool { false }
+    open spec fn neg_req(self) -> bool { wf(self) }
+    open spec fn neg_spec(self) -> BaseElement { arbitrary() }
 }
 
 impl vstd::std_specs::ops::AddSpecImpl<BaseElement> for BaseElement {
@@ -167,6 +183,30 @@ impl vstd::std_specs::ops::MulSpecImpl<BaseElement> for BaseElement {
     open spec fn mul_req(self, rhs: BaseElement) -> bool { wf(self) && wf(rhs) }
     open spec fn mul_spec(self, rhs: BaseElement) -> BaseElement { arbitrary() }
 }
+// ASSUMED: the trait constant ZERO = new(0) has inner value 0 (Verus cannot evaluate a trait const that is
+// initialised by an exec call; Kani obligation C10.f64.constants.zero_one checks it on the real code)
+pub proof fn axiom_zero()
+    ensures (<BaseElement as FieldElement>::ZERO).0 == 0,
+{ admit(); }
+
+// multiplication in F_p[phi] / (phi^3 - phi - 1) on coefficient triples (the formulas of the ext3 mul contract)
+pub open spec fn m3(a: (int, int, int), b: (int, int, int)) -> (int, int, int) {
+    ((a.0 * b.0 + a.1 * b.2 + a.2 * b.1) % P(),
+     (a.0 * b.1 + a.1 * b.0 + a.1 * b.2 + a.2 * b.1 + a.2 * b.2) % P(),
+     (a.0 * b.2 + a.1 * b.1 + a.2 * b.0 + a.2 * b.2) % P())
+}
+pub open spec fn pow3(b: (int, int, int), e: nat) -> (int, int, int)
+    decreases e
+{
+    if e == 0 { (1int, 0int, 0int) } else if e % 2 == 0 { let h = pow3(b, e / 2); m3(h, h) } else { m3(b, pow3(b, (e - 1) as nat)) }
+}
+// the cubic Frobenius constants: phi^p = (FA, FC, FE), phi^(2p) = (FB, FD, FF)
+pub open spec fn FA() -> int { 10615703402128488253 }
+pub open spec fn FB() -> int { 6700183068485440220 }
+pub open spec fn FC() -> int { 10050274602728160328 }
+pub open spec fn FD() -> int { 14531223735771536287 }
+pub open spec fn FE() -> int { 11746561000929144102 }
+pub open spec fn FF() -> int { 8396469466686423992 }
 """
 
 GH_RED_1 = r'''
@@ -234,6 +274,12 @@ GH_INT_2 = r'''
 EXT2_EXTRA = r"""
     open spec fn wf_x(a: [BaseElement; 2]) -> bool { wf(a[0]) && wf(a[1]) }
     open spec fn wf_b(b: BaseElement) -> bool { wf(b) }
+    // (a0 + a1 phi)^2 with phi^2 = phi - 2
+    open spec fn square_post(a: [BaseElement; 2], r: [BaseElement; 2]) -> bool {
+        wf(r[0]) && wf(r[1])
+        && val(r[0]) == (val(a[0]) * val(a[0]) - 2 * (val(a[1]) * val(a[1]))) % P()
+        && val(r[1]) == (2 * (val(a[0]) * val(a[1])) + val(a[1]) * val(a[1])) % P()
+    }
 """
 EXT2_MUL_PROOF = r"""
         proof {
@@ -249,6 +295,13 @@ EXT2_MUL_PROOF = r"""
 EXT3_EXTRA = r"""
     open spec fn wf_x(a: [BaseElement; 3]) -> bool { wf(a[0]) && wf(a[1]) && wf(a[2]) }
     open spec fn wf_b(b: BaseElement) -> bool { wf(b) }
+    // (a0 + a1 phi + a2 phi^2)^2 with phi^3 = phi + 1
+    open spec fn square_post(a: [BaseElement; 3], r: [BaseElement; 3]) -> bool {
+        wf(r[0]) && wf(r[1]) && wf(r[2])
+        && val(r[0]) == (val(a[0]) * val(a[0]) + 2 * (val(a[1]) * val(a[2]))) % P()
+        && val(r[1]) == (2 * (val(a[0]) * val(a[1]) + val(a[1]) * val(a[2])) + val(a[2]) * val(a[2])) % P()
+        && val(r[2]) == (2 * (val(a[0]) * val(a[2])) + val(a[1]) * val(a[1]) + val(a[2]) * val(a[2])) % P()
+    }
 """
 EXT3_MUL_PROOF = r"""
         proof {
@@ -289,6 +342,43 @@ proof fn thm_constants()
     ensures M as int == P(), (R2 as int) % P() == (R() * R()) % P(), (R2 as int) < P(),
 {
     assert((R2 as int) % P() == (R() * R()) % P()) by (compute);
+}
+
+// the field element new(v) stands for is v mod p
+pub proof fn lemma_val_new(r0: int, v: int)
+    requires 0 <= r0 < P(), 0 <= v, (r0 * R()) % P() == (v * R2 as int) % P(),
+    ensures vali(r0) == v % P(),
+{
+    use vstd::arithmetic::div_mod::*;
+    thm_constants();
+    lemma_mul_mod_noop_right(v, R2 as int, P());
+    lemma_mul_mod_noop_right(v, R() * R(), P());
+    assert(v * (R() * R()) == (v * R()) * R()) by (nonlinear_arith);
+    let w = (v * R()) % P();
+    lemma_mul_mod_noop_left(v * R(), R(), P());
+    lemma_mod_pos_bound(v * R(), P());
+    lemma_cancel_r(r0, w);
+    lemma_mul_mod_noop_left(v * R(), INV(), P());
+    assert((v * R()) * INV() == v * (R() * INV())) by (nonlinear_arith);
+    lemma_mul_mod_noop_right(v, R() * INV(), P());
+    assert((R() * INV()) % P() == 1) by (compute);
+}
+pub proof fn lemma_new_const(c: int)
+    requires 0 <= c < P(),
+    ensures forall|e: BaseElement| #![trigger val(e)] wf(e) && (e.0 as int * R()) % P() == (c * R2 as int) % P() ==> val(e) == c,
+{
+    assert forall|e: BaseElement| #![trigger val(e)] wf(e) && (e.0 as int * R()) % P() == (c * R2 as int) % P() implies val(e) == c by {
+        lemma_val_new(e.0 as int, c);
+        vstd::arithmetic::div_mod::lemma_small_mod(c as nat, P() as nat);
+    }
+}
+// C11: the constants of the cubic Frobenius are phi^p and phi^(2p) in F_p[phi]/(phi^3 - phi - 1)
+proof fn thm_frobenius3_constants()
+    ensures pow3((0, 1, 0), P() as nat) == (FA(), FC(), FE()),
+            m3((FA(), FC(), FE()), (FA(), FC(), FE())) == (FB(), FD(), FF()),
+{
+    assert(pow3((0, 1, 0), P() as nat) == (FA(), FC(), FE())) by (compute);
+    assert(m3((FA(), FC(), FE()), (FA(), FC(), FE())) == (FB(), FD(), FF())) by (compute);
 }
 
 // canonical encoding: as_int(new(v)) == v for every v < M
@@ -376,7 +466,14 @@ UNIT = {
         }"""}]}]},
 
         {"kind": "impl", "file": F, "header": "impl FieldElement for BaseElement",
-         "extra": "open spec fn wf_e(self) -> bool { wf(self) }\n", "methods": [
+         "extra": "open spec fn wf_e(self) -> bool { wf(self) }\n",
+         "consts": [{"name": "ZERO", "attrs": "#[verifier::external_body]\n",
+                     "note": "value assumed by axiom_zero (Verus cannot evaluate a trait const initialised by an exec call); "
+                             "cross-checked by Kani obligation C10.f64.constants.zero_one"}],
+         "methods": [
+            {"name": "square", "ret": "r", "fnlabel": "f64 FieldElement::square (default method at BaseElement)",
+             "ob": "C10.f64.square.contract", "src_file": "math/src/field/traits.rs", "src_header": "trait FieldElement: ...",
+             "spec": "ensures wf(r), val(r) == (val(self) * val(self)) % P(),"},
             {"name": "double", "ret": "r", "fnlabel": "f64 FieldElement::double", "ob": "C10.f64.double.contract",
              "spec": "ensures wf(r), r.0 as int == (2 * self.0 as int) % P(), val(r) == (2 * val(self)) % P(),",
              "ghost": [{"at": "start", "text": "proof { lemma_val_add_forall(self.0 as int, self.0 as int); }"},
@@ -411,6 +508,21 @@ UNIT = {
             }
             vstd::arithmetic::div_mod::lemma_mod_twice(two_x, P());
         }"""}]}]},
+        {"kind": "impl", "file": F, "header": "impl Neg for BaseElement", "out_header": "impl core::ops::Neg for BaseElement",
+         "extra": "type Output = Self;\n", "methods": [
+            {"name": "neg", "ret": "r", "fnlabel": "f64 <BaseElement as Neg>::neg", "ob": "C10.f64.neg.contract",
+             "spec": "ensures wf(r), val(r) == (0 - val(self)) % P(),",
+             "ghost": [{"at": "start", "text": "proof { axiom_zero(); assert(vali(0) == 0) by (compute); }"}]}]},
+        {"kind": "impl", "file": F, "header": "impl BaseElement", "methods": [
+            {"name": "exp7", "ret": "r", "pub": True, "fnlabel": "f64 BaseElement::exp7", "ob": "C10.f64.exp7.contract",
+             "spec": "requires wf(self),\nensures wf(r), val(r) == (((val(self) * val(self)) * val(self)) * ((val(self) * val(self)) * (val(self) * val(self)))) % P(),",
+             "ghost": [{"at": "start", "text": r"""
+        proof {
+            let v = val(self);
+            vstd::arithmetic::div_mod::lemma_mul_mod_noop(v * v, v * v, P());
+            vstd::arithmetic::div_mod::lemma_mul_mod_noop_left(v * v, v, P());
+            vstd::arithmetic::div_mod::lemma_mul_mod_noop((v * v) * v, (v * v) * (v * v), P());
+        }"""}]}]},
         {"kind": "impl", "file": F, "header": "impl ExtensibleField<2> for BaseElement", "extra": EXT2_EXTRA, "methods": [
             {"name": "mul", "ret": "r", "fnlabel": "f64 <BaseElement as ExtensibleField<2>>::mul", "ob": "C10.f64.ext2.mul.contract",
              "spec": "ensures wf(r[0]), wf(r[1]),\n"
@@ -420,6 +532,20 @@ UNIT = {
              "ghost": [{"at": "start", "text": EXT2_MUL_PROOF}]},
             {"name": "mul_base", "ret": "r", "fnlabel": "f64 <BaseElement as ExtensibleField<2>>::mul_base", "ob": "C10.f64.ext2.mul_base.contract",
              "spec": "ensures wf(r[0]), wf(r[1]), val(r[0]) == (val(a[0]) * val(b)) % P(), val(r[1]) == (val(a[1]) * val(b)) % P(),"},
+            {"name": "square", "ret": "r", "fnlabel": "f64 <BaseElement as ExtensibleField<2>>::square", "ob": "C10.f64.ext2.square.contract",
+             "ghost": [{"at": "start", "text": r"""
+        proof {
+            use vstd::arithmetic::div_mod::*;
+            let (a0, a1) = (val(a[0]), val(a[1]));
+            lemma_mul_mod_noop_right(2, a1 * a1, P());
+            lemma_sub_mod_noop(a0 * a0, 2 * (a1 * a1), P());
+            lemma_mul_mod_noop_right(2, a0 * a1, P());
+            lemma_add_mod_noop(2 * (a0 * a1), a1 * a1, P());
+        }"""}]},
+            {"name": "frobenius", "ret": "r", "fnlabel": "f64 <BaseElement as ExtensibleField<2>>::frobenius", "ob": "C10.f64.ext2.frobenius.contract",
+             "spec": "ensures wf(r[0]), wf(r[1]),\n"
+                     "    // conjugation phi -> 1 - phi of x^2 - x + 2\n"
+                     "    val(r[0]) == (val(x[0]) + val(x[1])) % P(), val(r[1]) == (0 - val(x[1])) % P(),"},
         ]},
 
         {"kind": "impl", "file": F, "header": "impl ExtensibleField<3> for BaseElement", "extra": EXT3_EXTRA, "methods": [
@@ -430,14 +556,48 @@ UNIT = {
                      "    val(r[1]) == (val(a[0]) * val(b[1]) + val(a[1]) * val(b[0]) + val(a[1]) * val(b[2]) + val(a[2]) * val(b[1]) + val(a[2]) * val(b[2])) % P(),\n"
                      "    val(r[2]) == (val(a[0]) * val(b[2]) + val(a[1]) * val(b[1]) + val(a[2]) * val(b[0]) + val(a[2]) * val(b[2])) % P(),",
              "ghost": [{"at": "start", "text": EXT3_MUL_PROOF}]},
+            {"name": "square", "ret": "r", "fnlabel": "f64 <BaseElement as ExtensibleField<3>>::square", "ob": "C10.f64.ext3.square.contract",
+             "ghost": [{"at": "start", "text": r"""
+        proof {
+            use vstd::arithmetic::div_mod::*;
+            let (a0, a1, a2) = (val(a[0]), val(a[1]), val(a[2]));
+            lemma_mul_mod_noop_right(2, a1 * a2, P());
+            lemma_add_mod_noop(a0 * a0, 2 * (a1 * a2), P());
+            lemma_add_mod_noop(a0 * a1, a1 * a2, P());
+            lemma_mul_mod_noop_right(2, a0 * a1 + a1 * a2, P());
+            lemma_add_mod_noop(2 * (a0 * a1 + a1 * a2), a2 * a2, P());
+            lemma_mul_mod_noop_right(2, a0 * a2, P());
+            lemma_add_mod_noop(2 * (a0 * a2), a1 * a1, P());
+            lemma_add_mod_noop(2 * (a0 * a2) + a1 * a1, a2 * a2, P());
+        }"""}]},
+            {"name": "frobenius", "ret": "r", "fnlabel": "f64 <BaseElement as ExtensibleField<3>>::frobenius", "ob": "C10.f64.ext3.frobenius.contract",
+             "spec": "ensures wf(r[0]), wf(r[1]), wf(r[2]),\n"
+                     "    // x0 + x1 phi^p + x2 phi^(2p) with phi^p = (FA, FC, FE), phi^(2p) = (FB, FD, FF) (thm_frobenius3_constants)\n"
+                     "    val(r[0]) == (val(x[0]) + FA() * val(x[1]) + FB() * val(x[2])) % P(),\n"
+                     "    val(r[1]) == (FC() * val(x[1]) + FD() * val(x[2])) % P(),\n"
+                     "    val(r[2]) == (FE() * val(x[1]) + FF() * val(x[2])) % P(),",
+             "ghost": [{"at": "start", "text": r"""
+        proof {
+            use vstd::arithmetic::div_mod::*;
+            let (x0, x1, x2) = (val(x[0]), val(x[1]), val(x[2]));
+            lemma_new_const(FA()); lemma_new_const(FB()); lemma_new_const(FC());
+            lemma_new_const(FD()); lemma_new_const(FE()); lemma_new_const(FF());
+            lemma_add_mod_noop_right(x0, FA() * x1, P());
+            lemma_add_mod_noop(x0 + FA() * x1, FB() * x2, P());
+            lemma_add_mod_noop(FC() * x1, FD() * x2, P());
+            lemma_add_mod_noop(FE() * x1, FF() * x2, P());
+        }"""}]},
             {"name": "mul_base", "ret": "r", "fnlabel": "f64 <BaseElement as ExtensibleField<3>>::mul_base", "ob": "C10.f64.ext3.mul_base.contract",
              "spec": "ensures wf(r[0]), wf(r[1]), wf(r[2]), val(r[0]) == (val(a[0]) * val(b)) % P(), val(r[1]) == (val(a[1]) * val(b)) % P(), val(r[2]) == (val(a[2]) * val(b)) % P(),"},
         ]},
     ],
     "epilogue": EPILOGUE,
-    "theorems": {"thm_constants": "C11.f64.constants.M_R2", "thm_roundtrip": "C11.f64.as_int_new.identity"},
+    "theorems": {"thm_constants": "C11.f64.constants.M_R2", "thm_roundtrip": "C11.f64.as_int_new.identity",
+                 "thm_frobenius3_constants": "C11.f64.ext3.frobenius_constants.pth_power"},
     "assumptions": [
         "Verus: `x as u64` truncation and shifts as specified by vstd; overflowing_add/sub specified by assume_specification "
         "(cross-checked bit-precisely by Kani harness k_std_overflowing_specs)",
+        "axiom_zero: FieldElement::ZERO (= new(0), an external_body trait const for Verus) has inner value 0; "
+        "checked on the real code by Kani obligation C10.f64.constants.zero_one",
     ],
 }
